@@ -230,6 +230,26 @@ Definition parse_batch_check_blob_oid (line : str) : option str :=
   | _ => None
   end.
 
+(* ---------- the content replay of rebase / cherry-pick (slow path), attestation part ----------
+   rewrite_authorship_after_rebase_v2: the log starts as the state at the ORIGINAL head (all files the
+   rewritten commits touched), and for every new commit only the files changed BY THAT COMMIT are
+   upserted; attestations of files that do not exist (by the running `existing_files` set, which also
+   starts from the original head and is updated only for changed files) are dropped. *)
+Definition replay_commit (log : list fatt) (changed : list (str * list lattr * bool)) : list fatt :=
+  fold_left (fun l c => upsert l (fst (fst c)) (snd (fst c)) (snd c)) changed log.
+
+(* known class (decidable on the step): the note was written by a rebase / cherry-pick that took the
+   content replay, i.e. did not qualify for the blob-equivalent fast path *)
+Definition Known_C05_replay (op_is_rebase_or_cherry_pick took_content_replay : bool) : bool :=
+  op_is_rebase_or_cherry_pick && took_content_replay.
+
+(* witness: at the original head a (3 lines, line 3 by session s) and b (2 lines, both by s); the
+   first rebased commit contains only the change to a; b is created by the second commit *)
+Definition w_s : str := [115].
+Definition w_head_state : list (str * list lattr) := [([97], [(3, 3, w_s)]); ([98], [(1, 2, w_s)])].
+Definition w_first_commit_changes : list (str * list lattr * bool) := [([97], [(4, 4, w_s)], true)].
+Definition w_first_commit_files (p : str) : option N := if str_eqb p [97] then Some 4 else None.
+
 (* ---------- witnesses ---------- *)
 (* a note whose attestation section names the file  DQ base_commit_sha DQ : DQ x  (DQ = the double quote; a legal file name) *)
 Definition w_remap_note : str :=
